@@ -69,17 +69,17 @@ type Input struct {
 
 // Result is the expectation.
 type Result struct {
-	Procs     []string
-	InRun     map[string]bool
-	Tasks     []*Task
-	ByProc    map[string][]*Task
-	Out       map[string][]*Item
-	POut      map[string][]string
-	Files     map[string][]byte // expected new regular files (outputs, extras, component outputs)
-	AuditFor  map[string]*Audit // expected audit record by output path
-	OrderAmb  map[string]bool   // "proc.port": order of this stream depends on timing
-	TupleAmb  map[string]bool   // proc: alignment across ports is only defined as a multiset of tuples
-	Err       string
+	Procs    []string
+	InRun    map[string]bool
+	Tasks    []*Task
+	ByProc   map[string][]*Task
+	Out      map[string][]*Item
+	POut     map[string][]string
+	Files    map[string][]byte // expected new regular files (outputs, extras, component outputs)
+	AuditFor map[string]*Audit // expected audit record by output path
+	OrderAmb map[string]bool   // "proc.port": order of this stream depends on timing
+	TupleAmb map[string]bool   // proc: alignment across ports is only defined as a multiset of tuples
+	Err      string
 }
 
 // TaskByKey finds a task.
@@ -167,6 +167,15 @@ func TagValue(rule string, path string) string {
 		return d
 	case strings.HasPrefix(rule, "const:"):
 		return rule[len("const:"):]
+	case rule == "sparse3":
+		// a tag for every third file only (the map function returns no tag for the others)
+		d := regexp.MustCompile(`[0-9]+`).FindString(base)
+		n := 0
+		fmt.Sscanf(d, "%d", &n)
+		if n%3 == 0 {
+			return "t" + d
+		}
+		return ""
 	}
 	return "x"
 }
@@ -343,6 +352,9 @@ func Eval(in *Input) *Result {
 				nt := &Item{Path: it.Path, Tags: copyMap(it.Tags), Audit: it.Audit, Producer: it.Producer}
 				for _, tr := range p.Tags {
 					v := TagValue(tr.Rule, it.Path)
+					if v == "" {
+						continue // the map function returned no such tag for this file
+					}
 					nt.Tags[tr.Key] = v
 				}
 				// the record written for the file carries the tags the incoming IP had in memory plus the new ones
